@@ -215,4 +215,4 @@ func verifC19Run(c VerifC19Case) *vkit.Outcome {
 
 var verifC19Prop = vkit.NewProp([]string{c19.P}, "c19kafka", verifC19Gen, verifC19Run)
 
-func TestVerifC19Kafka(t *testing.T) { verifC19Prop.Check(t) }
+func TestVerifC19Kafka(t *testing.T) { verifC19Prop.CrashFile = true; verifC19Prop.Check(t) }
